@@ -20,6 +20,10 @@ const FAKE_ID: u32 = 3000;
 pub fn rf_func() -> u32 {
     std::hint::black_box(4003)
 }
+#[inline(never)]
+pub fn rf_bool() -> bool {
+    std::hint::black_box(false)
+}
 
 fn u(v: &Value, k: &str) -> u64 {
     v.get(k).and_then(|x| x.as_u64()).unwrap_or(0)
@@ -205,6 +209,14 @@ fn run_one(sc: &Value) {
             occ_budget: u(sc, "occ_budget") as usize,
             ..Default::default()
         }));
+    }
+    if sc.get("prime_bool").and_then(|x| x.as_bool()).unwrap_or(false) {
+        // earlier in the same process, an ordinary function of the program was forced to the same value, in an injector
+        // lifetime of its own (not recorded: what follows must not depend on it)
+        let mut i0 = InjectorPP::new();
+        i0.when_called(injectorpp::func!(rf_bool, fn() -> bool)).will_return_boolean(want_id != 0);
+        let _ = std::hint::black_box(rf_bool as fn() -> bool)();
+        drop(i0);
     }
     let mut inj = in_lib(InjectorPP::new);
     let mut rust_fake = rust_fake;
